@@ -121,7 +121,9 @@ def net_fluxes(tprob, sources, sinks, populations=None):
 
     # get the net flux along each edge
     net_fluxes = fluxes - fluxes.T
-    net_fluxes[np.where(net_fluxes < 0)] = 0
+    # (a boolean mask also works for the sparse matrix that a sparse tprob
+    # yields; np.where does not understand sparse matrices)
+    net_fluxes[net_fluxes < 0] = 0
     return net_fluxes
 
 
